@@ -13,7 +13,7 @@ class A(Adapter):
     name = "snake"
     lean = "snake"
     serves = {"C01", "C04", "C05", "C07", "C08", "C09", "C10", "C11", "C12"}
-    ops = ("state", "step", "judge", "instance", "bounds")
+    ops = ("state", "step", "judge", "instance", "bounds", "spec")
     terminate_on_invalid = True
     max_steps = 60
     episode_cap = 450
@@ -109,6 +109,30 @@ class A(Adapter):
 
     def synthetic(self, ctx, cfg, env, runner, rng, drv):
         from envlib import rollouts
+
+        # wave 4 (C01 spec membership): declared specs vs the model's obsSpec (every configuration), reset timestep, observation
+        # arrays (toNValue: the five planes stacked on the last axis), (obsSpec cfg).valid vs observation_spec.validate and
+        # the invariant SpecInv on implementation states at reset, along play (uniform play ends on invalid moves; masked play
+        # reaches the time limit of the small configurations) and on the terminal step (harness/wave3_routing.py; theorems
+        # snake_obsSpec_generated, snake_*_obs_valid, snake_specInv_invariant, snake_obs_valid_along)
+        import wave3_routing as w3
+
+        w3.check_specs(ctx, self, cfg, env, drv)
+        w3.check_reset_and_obs(ctx, self, cfg, env, runner, rng, drv, 3 if ctx.quick else 8, 14 if ctx.quick else 60,
+                               policies=("masked", "uniform", "masked"), extra="spec_inv")
+        # the terminal observation AT the time limit (step_count == time_limit, the value the original DiscreteArray(time_limit)
+        # excluded; play in a sweep rarely gets there): a reset state with the counter moved to time_limit - 1, one step
+        import jax
+        import jax.numpy as jnp
+
+        s0, _ = runner.reset(jax.random.PRNGKey(int(rng.integers(1 << 31))))
+        s1 = s0.replace(step_count=jnp.array(env.time_limit - 1, jnp.int32))
+        legal = np.flatnonzero(np.asarray(s1.action_mask))
+        s2, ts2 = runner.step(s1, jnp.array(int(legal[0]) if len(legal) else 0, jnp.int32))
+        if int(ts2.step_type) != 2 or int(ts2.observation.step_count) != env.time_limit:
+            ctx.fail(self.name, "obs_at_limit", "observation check: the step that reaches the time limit is not LAST with step_count == time_limit",
+                     {"config": cfg.cid, "state": self.ser_state(env, s1)})
+        w3._obs_checks(ctx, self, cfg, env, drv, [(s2, ts2, False)], "limit", "spec_inv")
 
         states = []
         for _ in range(12 if ctx.quick else 60):
